@@ -52,6 +52,53 @@ fn operation_of(body: &[u8]) -> u32 {
     }
 }
 
+/// Forces overlap of concurrent requests over real sockets: every handler, once it has read its whole request,
+/// waits until all `n` requests have arrived (or a time-out: a client is free to serialise its sends), then the
+/// responses are sent in the scripted `order` of request-ids. Outcome-level control only (no timing in oracles).
+pub struct Gate {
+    n: usize,
+    order: Vec<u32>,
+    st: Mutex<(usize, usize)>, // (arrived, turn)
+    cv: std::sync::Condvar,
+}
+
+impl Gate {
+    pub fn new(n: usize, order: Vec<u32>) -> Arc<Gate> {
+        Arc::new(Gate { n, order, st: Mutex::new((0, 0)), cv: std::sync::Condvar::new() })
+    }
+    fn arrive_and_wait_turn(&self, key: u32, stop: &AtomicBool) {
+        let t0 = Instant::now();
+        let mut g = self.st.lock().unwrap();
+        g.0 += 1;
+        self.cv.notify_all();
+        loop {
+            let all_in = g.0 >= self.n;
+            let my_turn = self.order.get(g.1).map(|k| *k == key).unwrap_or(true) || !self.order.contains(&key);
+            if (all_in && my_turn) || stop.load(Ordering::SeqCst) || t0.elapsed() > Duration::from_secs(3) {
+                return;
+            }
+            g = self.cv.wait_timeout(g, Duration::from_millis(20)).unwrap().0;
+        }
+    }
+    fn done(&self, key: u32) {
+        let mut g = self.st.lock().unwrap();
+        if self.order.get(g.1) == Some(&key) {
+            g.1 += 1;
+        } else if let Some(p) = self.order.iter().position(|k| *k == key) {
+            // answered out of turn (after a time-out): never block the others on it
+            if p >= g.1 {
+                g.1 = g.1.max(p + 1).min(self.order.len());
+            }
+        }
+        self.cv.notify_all();
+    }
+}
+
+thread_local! {
+    /// gate for the connections of the printer started next on this thread (set by the caller, taken by start)
+    pub static NEXT_GATE: std::cell::RefCell<Option<Arc<Gate>>> = const { std::cell::RefCell::new(None) };
+}
+
 pub enum Hangup {
     /// close normally
     Fin,
@@ -61,8 +108,21 @@ pub enum Hangup {
 
 /// Serve one connection over any byte stream; `raw` is the underlying socket (timeouts, shutdown, RST).
 pub fn serve<S: Read + Write>(stream: &mut S, raw: &TcpStream, scripts: &BTreeMap<u32, Script>, stop: &AtomicBool, key_by_op: bool) -> (SeenConn, Hangup) {
+    serve_gated(stream, raw, scripts, stop, key_by_op, None)
+}
+
+pub fn serve_gated<S: Read + Write>(stream: &mut S, raw: &TcpStream, scripts: &BTreeMap<u32, Script>, stop: &AtomicBool, key_by_op: bool, gate: Option<&Gate>) -> (SeenConn, Hangup) {
+    let (seen, h, key) = serve_inner(stream, raw, scripts, stop, key_by_op, gate);
+    if let (Some(g), Some(k)) = (gate, key) {
+        g.done(k);
+    }
+    (seen, h)
+}
+
+fn serve_inner<S: Read + Write>(stream: &mut S, raw: &TcpStream, scripts: &BTreeMap<u32, Script>, stop: &AtomicBool, key_by_op: bool, gate: Option<&Gate>) -> (SeenConn, Hangup, Option<u32>) {
     let mut seen = SeenConn { seq: 0, req: ReqRecord::default(), script_key: None, fault_hit: false, reset_fired: false, app_bytes: 0, handshake_error: None };
     let mut conn = Conn::new();
+    let mut gkey: Option<u32> = None;
     let _ = raw.set_read_timeout(Some(Duration::from_millis(50)));
     let _ = raw.set_nodelay(true);
     let reset_after = if scripts.len() == 1 { scripts.values().next().and_then(|s| s.reset_request_after) } else { None };
@@ -83,12 +143,12 @@ pub fn serve<S: Read + Write>(stream: &mut S, raw: &TcpStream, scripts: &BTreeMa
             if seen.app_bytes >= r as usize {
                 seen.reset_fired = true;
                 seen.req = conn.req.clone();
-                return (seen, Hangup::Rst);
+                return (seen, Hangup::Rst, gkey);
             }
         }
         if stop.load(Ordering::SeqCst) || t0.elapsed() > Duration::from_secs(30) {
             seen.req = conn.req.clone();
-            return (seen, Hangup::Fin);
+            return (seen, Hangup::Fin, gkey);
         }
         let want = match reset_after {
             Some(r) => ((r as usize).saturating_sub(seen.app_bytes)).clamp(1, buf.len()),
@@ -97,7 +157,7 @@ pub fn serve<S: Read + Write>(stream: &mut S, raw: &TcpStream, scripts: &BTreeMa
         match stream.read(&mut buf[..want]) {
             Ok(0) => {
                 seen.req = conn.req.clone();
-                return (seen, Hangup::Fin);
+                return (seen, Hangup::Fin, gkey);
             }
             Ok(n) => {
                 seen.app_bytes += n;
@@ -106,14 +166,14 @@ pub fn serve<S: Read + Write>(stream: &mut S, raw: &TcpStream, scripts: &BTreeMa
             Err(e) if matches!(e.kind(), io::ErrorKind::WouldBlock | io::ErrorKind::TimedOut | io::ErrorKind::Interrupted) => continue,
             Err(_) => {
                 seen.req = conn.req.clone();
-                return (seen, Hangup::Fin);
+                return (seen, Hangup::Fin, gkey);
             }
         }
     }
     seen.req = conn.req.clone();
     if conn.bad().is_some() {
         let _ = stream.write_all(b"HTTP/1.1 400 Bad Request\r\nContent-Length: 0\r\nConnection: close\r\n\r\n");
-        return (seen, Hangup::Fin);
+        return (seen, Hangup::Fin, gkey);
     }
     // phase 2: answer from the script chosen by the IPP request-id
     let key = if key_by_op { operation_of(&conn.req.body) } else { request_id_of(&conn.req.body) };
@@ -125,6 +185,10 @@ pub fn serve<S: Read + Write>(stream: &mut S, raw: &TcpStream, scripts: &BTreeMa
         }
     };
     seen.script_key = Some(k);
+    gkey = Some(k);
+    if let Some(g) = gate {
+        g.arrive_and_wait_turn(k, stop);
+    }
     let mut server = Server::new(&script);
     loop {
         match server.next(usize::MAX) {
@@ -133,17 +197,17 @@ pub fn serve<S: Read + Write>(stream: &mut S, raw: &TcpStream, scripts: &BTreeMa
                     std::thread::sleep(Duration::from_millis(script.drip_ms as u64));
                 }
                 if stream.write_all(&d).is_err() || stream.flush().is_err() {
-                    return (seen, Hangup::Fin);
+                    return (seen, Hangup::Fin, gkey);
                 }
             }
             Out::End => break,
             Out::Cut => {
                 seen.fault_hit = true;
-                return (seen, Hangup::Fin);
+                return (seen, Hangup::Fin, gkey);
             }
             Out::Err(_) => {
                 seen.fault_hit = true;
-                return (seen, Hangup::Rst);
+                return (seen, Hangup::Rst, gkey);
             }
             Out::Stall => {
                 seen.fault_hit = true;
@@ -151,13 +215,13 @@ pub fn serve<S: Read + Write>(stream: &mut S, raw: &TcpStream, scripts: &BTreeMa
                 let t1 = Instant::now();
                 loop {
                     if stop.load(Ordering::SeqCst) || t1.elapsed() > Duration::from_secs(40) {
-                        return (seen, Hangup::Fin);
+                        return (seen, Hangup::Fin, gkey);
                     }
                     match stream.read(&mut buf) {
-                        Ok(0) => return (seen, Hangup::Fin),
+                        Ok(0) => return (seen, Hangup::Fin, gkey),
                         Ok(_) => {}
                         Err(e) if matches!(e.kind(), io::ErrorKind::WouldBlock | io::ErrorKind::TimedOut | io::ErrorKind::Interrupted) => {}
-                        Err(_) => return (seen, Hangup::Fin),
+                        Err(_) => return (seen, Hangup::Fin, gkey),
                     }
                 }
             }
@@ -165,7 +229,7 @@ pub fn serve<S: Read + Write>(stream: &mut S, raw: &TcpStream, scripts: &BTreeMa
     }
     // everything sent. Close-delimited framing ends by closing; otherwise wait for the client to hang up first.
     if matches!(script.framing, crate::printer::Framing::CloseDelimited) {
-        return (seen, Hangup::Fin);
+        return (seen, Hangup::Fin, gkey);
     }
     let t2 = Instant::now();
     loop {
@@ -179,7 +243,7 @@ pub fn serve<S: Read + Write>(stream: &mut S, raw: &TcpStream, scripts: &BTreeMa
             Err(_) => break,
         }
     }
-    (seen, Hangup::Fin)
+    (seen, Hangup::Fin, gkey)
 }
 
 pub fn hang_up(raw: &TcpStream, h: Hangup) {
@@ -230,6 +294,7 @@ impl TcpPrinter {
         let seen = Arc::new(Mutex::new(Vec::new()));
         let handlers: Arc<Mutex<Vec<JoinHandle<()>>>> = Arc::new(Mutex::new(Vec::new()));
         let scripts = Arc::new(scripts);
+        let gate: Option<Arc<Gate>> = NEXT_GATE.with(|g| g.borrow_mut().take());
         let (stop2, seen2, handlers2) = (stop.clone(), seen.clone(), handlers.clone());
         let accept = std::thread::Builder::new().name("sim-printer-accept".into()).spawn(move || {
             let mut seq = 0u64;
@@ -239,11 +304,12 @@ impl TcpPrinter {
                 }
                 let Ok(mut s) = s else { continue };
                 let (scripts, stop3, seen3) = (scripts.clone(), stop2.clone(), seen2.clone());
+                let gate3 = gate.clone();
                 let my_seq = seq;
                 seq += 1;
                 let h = std::thread::Builder::new().name("sim-printer-conn".into()).spawn(move || {
                     let raw = s.try_clone().expect("clone socket");
-                    let (mut sc, h) = serve(&mut s, &raw, &scripts, &stop3, key_by_op);
+                    let (mut sc, h) = serve_gated(&mut s, &raw, &scripts, &stop3, key_by_op, gate3.as_deref());
                     sc.seq = my_seq;
                     seen3.lock().unwrap().push(sc);
                     hang_up(&raw, h);
